@@ -11,7 +11,6 @@ import (
 	"github.com/nspcc-dev/neo-go/pkg/core/interop/iterator"
 	istorage "github.com/nspcc-dev/neo-go/pkg/core/interop/storage"
 	"github.com/nspcc-dev/neo-go/pkg/core/storage"
-	"github.com/nspcc-dev/neo-go/pkg/vm"
 	"github.com/nspcc-dev/neo-go/pkg/vm/stackitem"
 )
 
@@ -439,6 +438,7 @@ func (b *battery) run() {
 		if t == 0 {
 			continue
 		}
+		b.changeSets(t)
 		c := b.s.ly[t-1]
 		for _, q := range sc.Ranges {
 			if top || q.Start == "" {
@@ -500,6 +500,7 @@ func (b *battery) run() {
 			}
 		}
 		if top {
+			b.interopBattery(t)
 			b.find(t)
 			b.daoSeekWriting(t)
 		}
@@ -758,7 +759,7 @@ func wantFind(user string, e kv, opts int64) (string, bool) {
 func (b *battery) find(t int) {
 	sc := b.sc
 	d := b.s.daos[t-1]
-	ic := &interop.Context{VM: vm.New(), DAO: d}
+	ic := newIC(d)
 	b.ic = ic
 	sv, _ := b.sortedView(t, 0)
 	for ui, user := range sc.UserPfx {
@@ -803,9 +804,15 @@ func (b *battery) find(t int) {
 					b.cur = func() (string, int, string, string) { return "find", t, query, flags }
 					ic.VM.Estack().PushVal(opts)
 					ic.VM.Estack().PushVal([]byte(user))
-					ic.VM.Estack().PushVal(stackitem.NewInterop(&istorage.Context{ID: daoID}))
 					b.nq++
-					if err := istorage.Find(ic); err != nil {
+					var err error
+					if oi%2 == 1 { // System.Storage.Local.Find: the context comes from the executing contract
+						err = istorage.LocalFind(ic)
+					} else {
+						ic.VM.Estack().PushVal(stackitem.NewInterop(&istorage.Context{ID: daoID}))
+						err = istorage.Find(ic)
+					}
+					if err != nil {
 						b.fail("error", "find", t, flags, query, "iterator", err.Error(), "")
 						continue
 					}
